@@ -10,4 +10,9 @@ CLAIMED = {
         "technique": "Coq proof by induction over code-point lists + differential correspondence (hook + public API)",
     },
 }
-NOT_CLAIMED = {p: UNDER for p in ["C01", "C03", "C04", "C05", "C06", "C07", "C08", "C09", "C10", "C11", "C12", "C13", "C14", "C15", "C16", "C17", "C18", "C19", "C20"]}
+CLAIMED["C13"] = {
+    "text": "Theorem C13_flags_sound: for every attribute list, host kind, option set and visitor state, the (flag, dynamic-prop list, props expression) computed by the model of transform_attrs satisfies Vue's patch-flag contract flags_ok (fold invariant, no size bound; the bit constants are regenerated from patch_flags.rs on every run). The same contract is evaluated on every vnode call of the REAL output of each generated case, and the property's view of real and model outputs must agree.",
+    "note": "Trusted: Coq kernel; Spec/PatchFlags.v as the reading of Vue's contract; model tied to code differentially. Known finding class_on_builtin_host (Fragment/KeepAlive hosts get the element treatment of class/style). The `_`=2 direction for bound identifier children is exercised by correspondence only.",
+    "technique": "Coq proof (fold invariant over the attribute list) + output-only oracle on real outputs + view correspondence",
+}
+NOT_CLAIMED = {p: UNDER for p in ["C01", "C03", "C04", "C05", "C06", "C07", "C08", "C09", "C10", "C11", "C12", "C14", "C15", "C16", "C17", "C18", "C19", "C20"]}
